@@ -1,3 +1,4 @@
 """All harness builds (used by --setup)."""
 import fam_chain
-BUILDS = {"chain": fam_chain.build}
+import checks_misc
+BUILDS = {"chain": fam_chain.build, "p2prig": checks_misc.build_rig}
